@@ -25,8 +25,8 @@ type Op struct {
 	A, B  string
 	Strs  []string
 	Pairs [][2]string
-	Flag  bool      // noformat value / write fault / fs fault
-	Code  term.Node // for fadd (must be *Stmt), rcode, rplain
+	Flag  bool       // noformat value / write fault / fs fault
+	Code  term.Node  // for fadd (must be *Stmt), rcode, rplain
 	Run   func() Obs // for ext (optional): the implementation-side observation of this element
 	// MapKey (importnames, optional): operations with the same non-empty MapKey pass THE SAME Go
 	// map object to File.ImportNames (the object is made from the Pairs of the first such
@@ -257,6 +257,7 @@ func (w *World) Exec(h History) (obs []Obs) {
 			setInFlightLazy(func() string {
 				return fmt.Sprintf("operation %d (%s) of the history %s", i, kind, truncated(h.Sexp(), 4000))
 			})
+			opBegin()
 		}
 		f := w.Files[op.F]
 		switch op.Kind {
@@ -346,6 +347,7 @@ func (w *World) Exec(h History) (obs []Obs) {
 		default:
 			panic("hist: bad op " + op.Kind)
 		}
+		opEnd()
 		// runaway guard: an observation of more than RunawayLimit bytes (no stream produces
 		// one on purpose) ends the history with a `bad` observation instead of letting a
 		// changed implementation that grows its output from render to render exhaust memory
